@@ -24,12 +24,12 @@ type Obligation struct {
 	Cover  bool // vacuity query: expected SAT
 	unit   *Unit
 	// filled by solver
-	Result  string // unsat | sat | unknown | timeout
-	Solver  string
-	Millis  int64
-	Model   string
-	Output  string
-	ModelOf map[string]string // name -> term for replay
+	Result     string // unsat | sat | unknown | timeout
+	Solver     string
+	Millis     int64
+	Model      string
+	Output     string
+	ModelOf    map[string]string // name -> term for replay
 	File       string
 	Tried      []string
 	AllResults []string
@@ -61,23 +61,23 @@ type deferred struct {
 
 // State is the symbolic state along one path.
 type State struct {
-	vals    map[ssa.Value]Term
-	locs    map[ssa.Value]Loc
-	tuples  map[ssa.Value][]Term
-	heap    map[string]Term
-	iters   map[ssa.Value]*iterState
-	lines   []string
-	alloc   Term
-	ghost   map[string]Term
-	defers  []*ssa.Defer
-	variant map[*ssa.BasicBlock]Term
-	entered map[*ssa.BasicBlock]bool // loops whose header has been cut on this path
-	pathID  []string
-	dead    bool
-	epoch   int
-	scratch bool
-	loopIn  map[string]Term
-	loopSnap map[int]*State
+	vals      map[ssa.Value]Term
+	locs      map[ssa.Value]Loc
+	tuples    map[ssa.Value][]Term
+	heap      map[string]Term
+	iters     map[ssa.Value]*iterState
+	lines     []string
+	alloc     Term
+	ghost     map[string]Term
+	defers    []*ssa.Defer
+	variant   map[*ssa.BasicBlock]Term
+	entered   map[*ssa.BasicBlock]bool // loops whose header has been cut on this path
+	pathID    []string
+	dead      bool
+	epoch     int
+	scratch   bool
+	loopIn    map[string]Term
+	loopSnap  map[int]*State
 	tableKeys map[string][]Term
 }
 
@@ -148,31 +148,31 @@ func (s *State) assume(t Term) {
 
 // Unit is the verification of one function.
 type Unit struct {
-	eng      *Engine
-	fn       *ssa.Function
-	key      string
-	contract *Contract
-	framePol *framePolicy
-	pre      *Prelude
-	obls     []*Obligation
-	nfresh   int
-	paths    int
-	entry    *State            // snapshot of the entry state (for old())
-	entryHeap map[string]Term  // component -> entry constant
-	headers  map[*ssa.BasicBlock]int // loop header -> ordinal (1-based)
-	loopBlocks map[*ssa.BasicBlock]map[*ssa.BasicBlock]bool
-	params   map[string]Term   // contract name -> term (params, results bound later)
-	logical  map[string]Term
-	notes    []string          // assumptions / abstractions made while translating
-	noteSet  map[string]bool
-	oblNames map[string]int
-	strLits  map[string]string
-	maxPaths int
-	usedExternal map[string]bool
+	eng           *Engine
+	fn            *ssa.Function
+	key           string
+	contract      *Contract
+	framePol      *framePolicy
+	pre           *Prelude
+	obls          []*Obligation
+	nfresh        int
+	paths         int
+	entry         *State                  // snapshot of the entry state (for old())
+	entryHeap     map[string]Term         // component -> entry constant
+	headers       map[*ssa.BasicBlock]int // loop header -> ordinal (1-based)
+	loopBlocks    map[*ssa.BasicBlock]map[*ssa.BasicBlock]bool
+	params        map[string]Term // contract name -> term (params, results bound later)
+	logical       map[string]Term
+	notes         []string // assumptions / abstractions made while translating
+	noteSet       map[string]bool
+	oblNames      map[string]int
+	strLits       map[string]string
+	maxPaths      int
+	usedExternal  map[string]bool
 	usedContracts map[string]bool
-	sweep bool // zero-annotation sweep: only safety obligations matter
-	axiomsUsed map[string]bool
-	tracking map[string]string // when non-nil: components read while evaluating an opaque predicate body
+	sweep         bool // zero-annotation sweep: only safety obligations matter
+	axiomsUsed    map[string]bool
+	tracking      map[string]string // when non-nil: components read while evaluating an opaque predicate body
 }
 
 func (u *Unit) note(s string) {
@@ -455,6 +455,26 @@ func (u *Unit) knownRef(st *State, v Term, t types.Type) {
 	case *types.Slice:
 		st.assume(le(app("own", SInt, app("sbase", SInt, v)), st.alloc))
 	}
+}
+
+// entryClosed: the heap at function entry is closed — an object that existed at entry only refers
+// to objects that existed at entry. Applied when a reference is loaded from a component that has not
+// been written since entry.
+func (u *Unit) entryClosed(st *State, l Loc, v Term, t types.Type) {
+	cur, ok := st.heap[l.Comp]
+	if !ok || cur.S != l.Comp+"!0" {
+		return
+	}
+	var tgt Term
+	switch t.Underlying().(type) {
+	case *types.Pointer, *types.Map, *types.Chan:
+		tgt = v
+	case *types.Slice:
+		tgt = app("sbase", SInt, v)
+	default:
+		return
+	}
+	st.assume(implies(le(app("own", SInt, l.Ref), u.entry.alloc), le(app("own", SInt, tgt), u.entry.alloc)))
 }
 
 // ---------- loops ----------
